@@ -75,6 +75,20 @@ func c06Bodies() []c06Body {
 		{"selfresume", func() *FuncExpr {
 			return Func(nil, false, Local1("me", Call(Dot(Name("coroutine"), "running"))), Emit(Str("self"), Call(Dot(Name("coroutine"), "status"), Name("me")), Paren(Call(Dot(Name("coroutine"), "resume"), Name("me")))), Emit(Str("self-got"), cy(Str("s-y"))), Return(Str("self-ret")))
 		}, nil},
+		{"upwrite", func() *FuncExpr {
+			// assigns to a live local of its creator (the main chunk's `shared`): an open upvalue owned by another thread
+			return Func(nil, false, Assign1(Name("shared"), Bin("+", Name("shared"), Num(1))), Emit(Str("up-got"), cy(Name("shared"))), Assign1(Name("shared"), Bin("+", Name("shared"), Num(10))), Return(Name("shared")))
+		}, nil},
+		{"setter", func() *FuncExpr {
+			// exports a setter over its own local; the resumer calls it while this coroutine is suspended
+			return Func(nil, false, Local1("x", Num(1)), Assign1(Index(Name("setters"), Bin("+", Un("#", Name("setters")), Num(1))), Func(names("v"), false, Assign1(Name("x"), Name("v")))),
+				Emit(Str("set-got"), cy(Name("x"))), Emit(Str("set-x"), Name("x")), Emit(Str("set-got2"), cy(Name("x"))), Return(Name("x")))
+		}, nil},
+		{"faultescape", func() *FuncExpr {
+			// a closure over a local of the frame that then faults escapes before the coroutine dies
+			return Func(nil, false, Local(names("v", "w"), Num(5), Str("w")), Assign1(Index(Name("escaped"), Bin("+", Un("#", Name("escaped")), Num(1))), Func(nil, false, Assign1(Name("v"), Bin("+", Name("v"), Num(1))), Return(Name("v"), Name("w")))),
+				Emit(Str("fe-got"), cy(Name("v"))), Local1("bad", Bin("+", Name("nilv"), Name("v"))), Return(Name("bad")))
+		}, nil},
 		{"wrapinside", func() *FuncExpr {
 			// a generator consumed by a for-in loop inside the coroutine, yielding outward in between
 			gen := Func(nil, false, NumFor("i", Num(1), Num(2), nil, CallS(Dot(Name("coroutine"), "yield"), Name("i"))))
@@ -105,7 +119,7 @@ const c06Slots = 3
 // c06Program renders a history.
 func c06Program(bodies []c06Body, hist []c06Op) *Block {
 	var st []Stat
-	st = append(st, Local1("nilv", Nil()), Local1("cos", TableE()), Local1("kinds", TableE()))
+	st = append(st, Local1("nilv", Nil()), Local1("cos", TableE()), Local1("kinds", TableE()), Local1("shared", Num(0)), Local1("setters", TableE()), Local1("escaped", TableE()))
 	// report(tag): statuses of all slots (wrapped ones have no handle)
 	repArgs := []Expr{Name("tag")}
 	for k := 1; k <= c06Slots; k++ {
@@ -155,6 +169,10 @@ func c06Program(bodies []c06Body, hist []c06Op) *Block {
 		case "genfor":
 			st = append(st, GenFor(names("a", "b"), []Expr{Call(Dot(Name("coroutine"), "wrap"), Name("body_"+bodies[op.Body].name))}, Emit(Str("gen"), Name("a"), Name("b"))))
 		}
+		// closures exported by coroutine bodies are exercised from the main chunk after every step
+		st = append(st, NumFor("si", Num(1), Un("#", Name("setters")), nil, CallS(Index(Name("setters"), Name("si")), Num(float64(100+step)))),
+			NumFor("ei", Num(1), Un("#", Name("escaped")), nil, Emit(Str("esc"), Name("ei"), CallS(Index(Name("escaped"), Name("ei"))).Call)),
+			Emit(Str("shared"), Name("shared")))
 		st = append(st, CallS(Name("report"), Str(fmt.Sprintf("st%d", step+1))), Emit(Str("running"), Call(Dot(Name("coroutine"), "running"))))
 	}
 	return Blk(st...)
@@ -379,8 +397,8 @@ func c06Key(bodies []c06Body, h []c06Op, mo glrun.MOutcome) (string, [c06Slots +
 // same drive sequence performed from Lua on the same implementation and on the model.
 func c06GoAPI(r *harness.Run, bodies []c06Body) {
 	for bi, b := range bodies {
-		if b.name == "nested" {
-			continue
+		if b.name == "nested" || b.name == "upwrite" || b.name == "setter" || b.name == "faultescape" {
+			continue // these bodies use the drive program's own locals
 		}
 		for nres := 1; nres <= 5; nres++ {
 			for _, arity := range []int{0, 1, 3} {
